@@ -184,6 +184,7 @@ def hinf_norm(A, B, C, D, n_grid=4000):
 
 def oracle_fit(ctx, thorough, forced=None):
     rng = ctx.rng
+    snap = ctx.snap()
     nx, nu = rng.randint(1, 3), rng.randint(1, 2)
     if forced is not None:
         nx = 2
@@ -212,7 +213,8 @@ def oracle_fit(ctx, thorough, forced=None):
         args.update(alpha=100, ratio=1, max_iter=6, square_norm=False)
     reg = (lmi.LmiEdmdHinfReg if fam == 'edmd' else lmi.LmiDmdcHinfReg)(**args)
     case = {'family': fam, 'nx': nx, 'nu': nu, 'weight': wk, 'alpha': args['alpha'], 'ratio': args['ratio'],
-            'max_iter': args['max_iter'], 'X': X.tolist()}
+            'max_iter': args['max_iter'], 'X': X.tolist(),
+            'replay': {'rng': snap, 'thorough': thorough, 'forced': forced}}
     try:
         reg.fit(X, **kw)
     except Exception as ex:
@@ -370,5 +372,14 @@ def run(ctx):
 
 
 def replay(ctx, path):
-    print(open(path).read()[:3000])
-    return 1
+    """re-execute the oracle call that produced the replay (same PRNG state, same forced arguments)"""
+    obj = json.load(open(path))
+    r = (obj.get('case') or {}).get('replay') if isinstance(obj.get('case'), dict) else None
+    print(json.dumps({k: v for k, v in obj.items() if k != 'case'}, indent=1)[:1500])
+    if not r:
+        print('this replay carries no re-executable oracle call (broken proof / correspondence: see "broken")')
+        return 1
+    ctx.restore(r['rng'])
+    why, case, note = oracle_fit(ctx, r['thorough'], forced=None if r['forced'] is None else tuple(tuple(x) if isinstance(x, list) and x and isinstance(x[0], list) else x for x in r['forced']))
+    print('oracle now:', why or 'property holds on this input', '' if note is None else f'({note})')
+    return 1 if why else 0
